@@ -1,7 +1,8 @@
 ---------------------------- MODULE DisentangleRec ----------------------------
 (* code -> spec: one record per k-point of a real wannierise run on synthetic data.  Masks are lists of 0-based band
-   indices as passed by wannierise to Wannierizer.add_kpoint; events are the gauge matrices the run went through
-   (initial, after every update, final v_matrix), projected to integers:
+   indices as passed by wannierise to Wannierizer.add_kpoint (when that internal call cannot be observed the harness
+   writes the specification's sets); events are the gauge matrices the run went through (the final v_matrix, and -
+   when observable - the initial one and the one after every update), projected to integers:
      support  rows with an entry above 1e-12,  rank  number of singular values above 1/2,
      gram / capt / out  buckets ceil(log10(r / 1e-16)) of |U^dagger U - 1|, |(U U^dagger - 1) restricted to frozen rows|,
      |rows outside the outer window|   (bucket <= 8  <=>  residual <= 1e-8). *)
@@ -20,6 +21,13 @@ Clauses ==
    IN
    [ sorted           |-> \A k \in 1..(Len(E) - 1) : E[k] <= E[k + 1],
      assert_iff       |-> Rec.asserted <=> ~AssertPasses(E, Rec.flo, Rec.fhi, ex, Rec.olo, Rec.ohi),
+     (* what the statement needs of the masks: every state of the frozen window (whole multiplets inside it, plus the explicit
+        bands) is frozen, nothing outside the outer window (multiplets cut by its edge included) is selected *)
+     frozen_covers_spec |-> ~Rec.asserted => fr \subseteq Set1(Rec.frozen),
+     selected_in_outer  |-> ~Rec.asserted => (Set1(Rec.frozen) \cup Set1(Rec.free)) \subseteq ou,
+     (* the rows the harness used for the numeric residuals are the specification's sets (harness vs spec, not a verdict) *)
+     harness_sets     |-> Set1(Rec.capt_rows) = fr /\ Set1(Rec.outer_rows) = ou,
+     (* informational (the implementation's present choice, not demanded by the statement): exact masks, multiplets, call order *)
      frozen_equals_spec |-> ~Rec.asserted => Set1(Rec.frozen) = fr,
      free_equals_spec |-> ~Rec.asserted => Set1(Rec.free) = Free(E, Rec.flo, Rec.fhi, ex, Rec.olo, Rec.ohi),
      frozen_in_outer  |-> ~Rec.asserted => Set1(Rec.frozen) \subseteq ou,
